@@ -675,6 +675,11 @@ func (w *worker) snapshot() (map[string]string, error) {
 		}
 		h := sha256.Sum256(b)
 		out[rel] = hex.EncodeToString(h[:8])
+		// identity: a file that is not at the configured path and was replaced by another file with the same bytes
+		// was touched as well (the file at the configured path is replaced by rename by design)
+		if st, ok := info.Sys().(*syscall.Stat_t); ok && rel != "Hookaidofile" {
+			out[rel] += fmt.Sprintf("@ino%d", st.Ino)
+		}
 		return nil
 	})
 	return out, err
